@@ -149,6 +149,12 @@ MUTANTS = [
     ("c19-multicall-keeps-failed-jobs-reverted", "C19", J, "        jobs = self._job_list[:]\n        del self._job_list[:]\n", "        jobs = self._job_list[:]\n", "failed jobs are sent again with the next batch"),
     ("c20-multicall-default-config-reverted", "C20", J, "        self._config = config or getattr(\n            server, \"_config\", jsonrpclib.config.DEFAULT\n        )", "        self._config = config or jsonrpclib.config.DEFAULT", "MultiCall(proxy) uses the shared DEFAULT Config again"),
     ("c14-fault-data-translation-reverted", "C14", J, "        if data is not None and config.use_jsonclass:", "        if False:", "Fault data is emitted raw again"),
+    ("c03-id-check-recursive-reverted", "C03", S, "            to_check.extend(item)\n        elif isinstance(item, utils.DictType):\n            to_check.extend(item.values())", "            if not all(_is_finite(sub) for sub in item):\n                return False\n        elif isinstance(item, utils.DictType):\n            if not all(_is_finite(sub) for sub in item.values()):\n                return False", "the id check recurses again: deep ids overflow the stack"),
+    ("c14-forced-id-sticks-reverted", "C14", J, "            rpcid = self.rpcid\n\n        return dumps(\n            self,\n            methodresponse=True,\n            rpcid=rpcid,", "            rpcid = self.rpcid\n        self.rpcid = rpcid\n\n        return dumps(\n            self,\n            methodresponse=True,\n            rpcid=rpcid,", "a forced id is stored in the Fault object again"),
+    ("c07-hidden-local-class-reverted", "C07", K, "        and getattr(module, json_class, None) is clazz\n", "", "registered local classes of importable modules are dumped by module path again"),
+    ("c07-dotted-registered-name-reverted", "C07", K, "    if classes and json_module_clean in classes:\n        # Name of a local class (which can look like a module path)\n        json_class = classes[json_module_clean]\n    elif classes and len(json_module_parts) == 1:", "    if classes and len(json_module_parts) == 1:", "dotted registered names are imported as module paths again"),
+    ("c07-enum-value-raw-reverted", "C07", K, "            [dump(obj.value, serialize_method, ignore_attribute, ignore, config)]", "            [obj.value]", "enum values are emitted raw again"),
+    ("c20-empty-handler-table-detached-reverted", "C20", C, "        if serialize_handlers is None:\n            serialize_handlers = {}\n        self.serialize_handlers = serialize_handlers", "        self.serialize_handlers = serialize_handlers or {}", "an empty handler table given by the caller is replaced again"),
     ("c17-cgi-byte-read-reverted", "C17", S, "            request_text = utils.from_bytes(reader.read(length))", "            request_text = sys.stdin.read(length)", "the CGI handler reads characters again"),
     ("c19-2xx-accepted", "C19", J, "            if response.status == 200:", "            if response.status < 300:", "201/202 replies parsed as results"),
     ("c20-ignore-not-propagated", "C20", K, "                attrs[attr_name] = dump(\n                    attr_value,\n                    serialize_method,\n                    ignore_attribute,\n                    ignore,\n                    config,\n                )",
